@@ -252,8 +252,8 @@ PROPS['C03'] = dict(
 PROPS['C15'] = dict(
     level='proof',
     module='SlotVerif.Props.C15',
-    suites=[dict(name='runner', variant='default', shrink=False, quick=dict(count=900, timeout=900), thorough=dict(count=15000, timeout=3000)),
-            dict(name='runner', variant='checks', shrink=False, quick=dict(count=300, timeout=900), thorough=dict(count=4000, timeout=3000))],
+    suites=[dict(name='runner', variant='default', shrink=False, quick=dict(count=900, timeout=900, set=dict(case_timeout=180)), thorough=dict(count=15000, timeout=3000, set=dict(case_timeout=180))),
+            dict(name='runner', variant='checks', shrink=False, quick=dict(count=300, timeout=900, set=dict(case_timeout=180, node_cap=300)), thorough=dict(count=4000, timeout=3000, set=dict(case_timeout=180, node_cap=300)))],
     rule='corr.runner.control: Runner::run (2/3 of the non-direct cases) and run_eqsat (1/3) on 1-2 arithmetic start terms with a '
          'random subset of 1-6 pool rules, iter_limit from {0,1,2,5,30}, node_limit from {0,5,20,10000}, a recording hook and a '
          'scripted hook that fails at iteration 0, 1 or 2 in a quarter of the cases. The per-iteration observations (did the '
